@@ -113,6 +113,7 @@ let titem v = match lst v with
 let item16 v = match lst v with
   | [k; ib; ie; body] when str k = "TB" -> RefExpand16.TransBlock (str ib, str ie, List.map titem (lst body))
   | [k; s] when str k = "X" -> RefExpand16.Text (str s)
+  | [k; l] when str k = "I" -> RefExpand16.InitLine (uline l)
   | [k; kd; body] when str k = "B" -> RefExpand16.Block (ekind kd, "", "", ulines body)
   | [k; kd; ib; ie; body] when str k = "B" -> RefExpand16.Block (ekind kd, str ib, str ie, ulines body)
   | [k; body] when str k = "S" -> RefExpand16.SigBlock ("", "", ulines body)
@@ -131,3 +132,21 @@ let () =
 let () =
   register "d07.names_ok_shipped" (function [lines; tt; structs; protos; msgs] ->
       vbool (Parse16.names_ok_shipped (strs lines) (rows tt) (strs structs) (strs protos) (strs msgs)) | _ -> failwith "arity")
+
+(* C08 bridge: the "State Processing" region of the shipped Python template *)
+let () =
+  register "py.proc_ok" (function [] -> vbool PyRender.py_proc_ok | _ -> failwith "arity");
+  register "py.proc_lines" (function [] -> vstrs PyRender.py_proc_lines | _ -> failwith "arity");
+  register "py.proc_ref" (function [tt; structs; protos; msgs] ->
+      S (PyRender.py_proc_ref (rows tt) (strs structs) (strs protos) (strs msgs)) | _ -> failwith "arity");
+  register "py.init_ref" (function [tt; structs; protos; msgs] ->
+      S (PyRender.py_init_ref (rows tt) (strs structs) (strs protos) (strs msgs)) | _ -> failwith "arity");
+  register "py.proc_reads" (function [tt; structs; protos; msgs] ->
+      vbool (PyRender.py_proc_reads (rows tt) (strs structs) (strs protos) (strs msgs)) | _ -> failwith "arity")
+
+(* C10 bridge: the transition block of the shipped C# template *)
+let () =
+  register "cs.block_ok" (function [] -> vbool CsRender.cs_block_ok | _ -> failwith "arity");
+  register "cs.block_lines" (function [] -> vstrs CsRender.cs_block_lines | _ -> failwith "arity");
+  register "cs.block_ref" (function [tt; structs; protos; msgs] ->
+      S (CsRender.cs_block_ref (rows tt) (strs structs) (strs protos) (strs msgs)) | _ -> failwith "arity")
